@@ -1077,6 +1077,9 @@ def length_curve(obj):
     if not isinstance(obj, abstract.Curve):
         raise GeomdlException("Input shape must be an instance of abstract.Curve class")
 
+    # The curve could have been evaluated on a part of its domain
+    obj.evaluate()
+
     length = 0.0
     evalpts = obj.evalpts
     num_evalpts = len(obj.evalpts)
